@@ -405,3 +405,52 @@ Proof.
   eexists. split; [reflexivity|]. split; [|reflexivity].
   unfold zlen in *. rewrite firstn_length. lia.
 Qed.
+
+(* ---------------------------------------------------------------- ffi.string / ffi.unpack, top level *)
+(* ffi.string(x, maxlen) on an array: the result is made of the units r before the first zero unit among
+   the first `length` units (length = maxlen if given, else the array length) *)
+Theorem string_array_stops : forall t mem maxlen,
+  let length := if maxlen <? 0 then zlen mem else maxlen in
+  exists r rest,
+    firstn (Z.to_nat length) mem = r ++ rest /\ zero_free r /\
+    (rest = [] \/ exists rest', rest = 0 :: rest') /\
+    string_array t mem maxlen = of_units t r.
+Proof.
+  intros t mem maxlen length.
+  destruct (until_zero_spec (firstn (Z.to_nat length) mem)) as [rest [H1 [H2 H3]]].
+  exists (until_zero (firstn (Z.to_nat length) mem)), rest. repeat split; auto.
+Qed.
+
+(* ffi.string(p, maxlen) on a pointer: the same within maxlen units; without maxlen the scan runs to the
+   first zero unit of the memory *)
+Theorem string_pointer_stops : forall t mem maxlen,
+  exists r rest,
+    (if maxlen <? 0 then mem else firstn (Z.to_nat maxlen) mem) = r ++ rest /\ zero_free r /\
+    (rest = [] \/ exists rest', rest = 0 :: rest') /\
+    string_pointer t mem maxlen = of_units t r.
+Proof.
+  intros t mem maxlen. unfold string_pointer.
+  destruct (maxlen <? 0).
+  - destruct (until_zero_spec mem) as [rest [H1 [H2 H3]]].
+    exists (until_zero mem), rest. repeat split; auto.
+  - destruct (until_zero_spec (firstn (Z.to_nat maxlen) mem)) as [rest [H1 [H2 H3]]].
+    exists (until_zero (firstn (Z.to_nat maxlen) mem)), rest. repeat split; auto.
+Qed.
+
+(* ffi.unpack(p, n), every element kind: exactly the first n units (zeros included) *)
+Theorem unpack_exact_all : forall t mem n, 0 <= n <= zlen mem ->
+  exists us, us = firstn (Z.to_nat n) mem /\ zlen us = n /\ unpack t mem n = of_units t us.
+Proof.
+  intros t mem n H. unfold unpack. destruct (Z.ltb_spec n 0); [lia|].
+  eexists. split; [reflexivity|]. split; [|reflexivity].
+  unfold zlen in *. rewrite firstn_length. lia.
+Qed.
+
+(* the hypotheses of string_new_roundtrip are satisfiable for every element type *)
+Lemma roundtrips_examples :
+  roundtrips E8 (PBytes [104; 105; 255]) /\ roundtrips E16 (PStr [0x1F600; 97; 0xD800; 0x20AC]) /\
+  roundtrips E32 (PStr [0x1F600; 0xDC00; 97]).
+Proof.
+  unfold roundtrips, valid_str, zero_free, valid_cp.
+  repeat split; repeat constructor; try lia; try discriminate.
+Qed.
